@@ -405,13 +405,17 @@ func genModelFontOpt(rng *rand.Rand, nested bool) *modelFont {
 		}
 		want.Encoding = append([]string(nil), w.Encoding...)
 	}
-	// composites (DESIGN.md 10.1): StandardEncoding fonts only
 	if nested {
 		encKind = 0
 		w.StdEncoding, w.Encoding = true, nil
 		want.Encoding = append([]string(nil), std...)
 	}
-	if encKind == 0 && (nested || rng.IntN(2) == 0) {
+	// composites (DESIGN.md 10.1); the component codes always refer to
+	// StandardEncoding, whatever the font's own encoding is
+	if nested || rng.IntN(2) == 0 {
+		if encKind != 0 {
+			mf.feat["seac composite in a font with its own encoding"] = true
+		}
 		var cands []*ref.WGlyph
 		for _, g := range w.Glyphs {
 			if _, ok := codeOf[g.Name]; ok && g.Den == 1 && !g.UseSBW {
@@ -543,7 +547,7 @@ func genModelFontOpt(rng *rand.Rand, nested bool) *modelFont {
 }
 
 func runC06(r *rt.Runner) {
-	n := r.N(3000, 200000)
+	n := r.N(20000, 200000)
 	for k := 0; k < n; k++ {
 		r.Case("model-font", func(c *rt.C) {
 			rng := c.Rand()
